@@ -141,16 +141,16 @@ type TemplateProgram struct {
 	ChildrenKey     string // "children" or "attachments"
 	Kinds           []*Resource
 	StaticIdx       map[int]bool // children (by index) whose content does not depend on the parent's template
-	Ordered         bool   // child i is desired only once child i-1 was observed
-	NeedReady       bool   // ... and observed Ready
-	Derived         bool   // second kind: one per observed child of the first kind
-	SetNamespace    bool   // set metadata.namespace on namespaced children (always done for cluster parents)
-	NoLabels        bool   // do not put the selector labels on children (generateSelector adds controller-uid)
-	BadLabel        bool   // put labels that do not satisfy the selector
-	OwnUpdated      bool   // return an own status.conditions[Updated]
-	OwnUpdatedAs    string // its status: "" = Unknown, "True", "False", or "echo" (whatever the parent's status carries)
-	NilStatus       bool   // return no status at all
-	Related         bool   // one extra child per related ConfigMap
+	Ordered         bool         // child i is desired only once child i-1 was observed
+	NeedReady       bool         // ... and observed Ready
+	Derived         bool         // second kind: one per observed child of the first kind
+	SetNamespace    bool         // set metadata.namespace on namespaced children (always done for cluster parents)
+	NoLabels        bool         // do not put the selector labels on children (generateSelector adds controller-uid)
+	BadLabel        bool         // put labels that do not satisfy the selector
+	OwnUpdated      bool         // return an own status.conditions[Updated]
+	OwnUpdatedAs    string       // its status: "" = Unknown, "True", "False", or "echo" (whatever the parent's status carries)
+	NilStatus       bool         // return no status at all
+	Related         bool         // one extra child per related ConfigMap
 	ResyncAfter     float64
 	Teardown        bool // finalize: drop one observed child per call instead of all at once
 	WithStatus      bool // desired children carry a status stanza (which metacontroller must ignore)
